@@ -111,12 +111,52 @@ fn run_child(dir: &Path, env: &[(&str, String)]) -> Option<i32> {
     c.status().expect("spawn").code()
 }
 
+fn dn(b: &[u8]) -> u128 {
+    u64::from_le_bytes(blake2b_256(b)[..8].try_into().unwrap()) as u128
+}
+
+/// One observation for the parts-level model (Freezer/FreezeParts.v): the main chain with its parts as the
+/// blocks were built, Freezer::number(), which blocks still have their part rows in the key-value store
+/// (read raw, not through the getters), and every part getter's answer.
+fn pcase_coq(node: &Node, main: &[BlockView]) -> String {
+    use ckb_db_schema::COLUMN_BLOCK_UNCLE;
+    let store = node.shared.store();
+    let frozen = store.freezer().map(|f| f.number()).unwrap_or(1).saturating_sub(1);
+    let blk = |hdr: u128, body: Vec<u128>, u: u128, p: u128, e: Option<u128>| {
+        format!("({}, {}, {}, {}, {})", coq_n(hdr), coq_list(&body, |x| coq_n(*x)), coq_n(u), coq_n(p), coq_option(&e, |x| coq_n(*x)))
+    };
+    let mut mains = vec![];
+    let mut rows = vec![];
+    let mut obs = vec![];
+    for b in main.iter().skip(1) {
+        let hash = b.hash();
+        let body: Vec<u128> = b.transactions().iter().map(|t| dn(t.hash().as_slice())).collect();
+        mains.push(format!("mkBlk {} {} {} {} {} {}", coq_n(dn(hash.as_slice())), coq_n(dn(b.header().data().as_slice())), coq_list(&body, |x| coq_n(*x)),
+            coq_n(dn(b.uncles().data().as_slice())), coq_n(dn(b.data().proposals().as_slice())), coq_option(&b.extension().map(|e| dn(e.as_slice())), |x| coq_n(*x))));
+        rows.push(store.get(COLUMN_BLOCK_UNCLE, hash.as_slice()).is_some());
+        let whole = |v: Option<BlockView>| v.map(|v| blk(dn(v.header().data().as_slice()), v.transactions().iter().map(|t| dn(t.hash().as_slice())).collect(),
+            dn(v.uncles().data().as_slice()), dn(v.data().proposals().as_slice()), v.extension().map(|e| dn(e.as_slice()))));
+        let packed_view = store.get_packed_block(&hash).map(|p| p.into_view());
+        obs.push(format!("mkPObs {} {} {} {} {} {} {} {}",
+            coq_option(&store.get_block_header(&hash).map(|h| dn(h.data().as_slice())), |x| coq_n(*x)),
+            coq_list(&store.get_block_body(&hash).iter().map(|t| dn(t.hash().as_slice())).collect::<Vec<_>>(), |x| coq_n(*x)),
+            coq_option(&store.get_cellbase(&hash).map(|t| dn(t.hash().as_slice())), |x| coq_n(*x)),
+            coq_option(&store.get_block_uncles(&hash).map(|u| dn(u.data().as_slice())), |x| coq_n(*x)),
+            coq_option(&store.get_block_proposal_txs_ids(&hash).map(|p| dn(p.as_slice())), |x| coq_n(*x)),
+            coq_option(&store.get_block_extension(&hash).map(|e| dn(e.as_slice())), |x| coq_n(*x)),
+            coq_option(&whole(store.get_block(&hash)), |x| x.clone()),
+            coq_option(&whole(packed_view), |x| x.clone())));
+    }
+    format!("mkPCase {} {} {} {}", coq_list(&mains, |x| x.clone()), coq_nat(frozen), coq_list(&rows, |b| coq_bool(*b)), coq_list(&obs, |x| x.clone()))
+}
+
 pub fn run(seed: u64, thorough: bool, out_dir: &Path, scratch: &Path) -> Out {
     let mut rng = Rng::new(seed ^ 0xC10);
     let mut out = Out { viol: vec![], evaluations: 0, distinct: BTreeSet::new(), stats: BTreeMap::new(), samples: vec![] };
-    let header = "From CKB Require Import Freezer.Freeze.";
+    let header = "From CKB Require Import Freezer.Freeze Freezer.FreezeParts.";
     let mut cf = CaseFile::new(out_dir, "cases_00", header);
     cf.group("freeze", "fzcase", "check_fzcase");
+    cf.group("parts", "pcase", "check_pcase");
     let mut descs: BTreeMap<String, Vec<Value>> = BTreeMap::new();
     let ft = ckb_systemtime::faketime();
     let n_hist = hx_common::shard_share(if thorough { 12 } else { 2 });
@@ -147,8 +187,11 @@ pub fn run(seed: u64, thorough: bool, out_dir: &Path, scratch: &Path) -> Out {
         // side-chain blocks currently stored
         let main_ids: BTreeSet<u64> = h.main_chain().into_iter().collect();
         let side: Vec<BlockView> = h.blocks.iter().filter(|b| !main_ids.contains(&h.block_id[&b.hash()]) && h.node().shared.store().get_block_header(&b.hash()).is_some()).cloned().collect();
+        let main_views: Vec<BlockView> = h.main_chain().iter().map(|id| h.block_by_id(*id)).collect();
         // ---- before
         let o0 = observe(h.node(), false);
+        cf.push(1, pcase_coq(h.node(), &main_views));
+        descs.entry("parts".into()).or_default().push(json!({"case": jhist, "at": "before the pass"}));
         let frozen0 = h.node().shared.store().freezer().map(|f| f.number()).unwrap_or(0);
         // pristine copy for the crash stream
         let consensus = h.consensus.clone();
@@ -181,6 +224,8 @@ pub fn run(seed: u64, thorough: bool, out_dir: &Path, scratch: &Path) -> Out {
                 }
                 *out.stats.entry("blocks_frozen".into()).or_default() += frozen1.saturating_sub(frozen0);
                 let o1 = observe(h.node(), false);
+                cf.push(1, pcase_coq(h.node(), &main_views));
+                descs.entry("parts".into()).or_default().push(json!({"case": jhist, "at": "after one pass"}));
                 let d = diff(&o0, &o1);
                 if !d.is_empty() {
                     for (k, a, b) in d.iter().take(3) { let _ = (a, b); *out.stats.entry(format!("changed_{}", k.rsplit('/').next().unwrap_or(""))).or_default() += 1; }
@@ -200,6 +245,8 @@ pub fn run(seed: u64, thorough: bool, out_dir: &Path, scratch: &Path) -> Out {
                 node.stop();
                 h.node = Some(Node::on_disk(&consensus, &dir, true));
                 let o2 = observe(h.node(), true);
+                cf.push(1, pcase_coq(h.node(), &main_views));
+                descs.entry("parts".into()).or_default().push(json!({"case": jhist, "at": "after one pass and a restart"}));
                 let d = diff(&o0, &o2);
                 if !d.is_empty() {
                     out.viol.push(json!({"what": format!("{} answers about main-chain blocks differ after freezing and a restart", d.len()),
@@ -248,7 +295,8 @@ pub fn run(seed: u64, thorough: bool, out_dir: &Path, scratch: &Path) -> Out {
                 let node = Node::on_disk(&consensus, &case_dir.join("node"), true);
                 let fnum = node.shared.store().freezer().map(|f| f.number()).unwrap_or(0);
                 let o = observe(&node, true);
-                let d: Vec<_> = diff(&o0, &o).into_iter().filter(|(k, _, _)| k.ends_with("/block") || k.ends_with("/header") || k.ends_with("/tx") || k.ends_with("/info") || k.ends_with("/ancestor_from_tip") || is_cell_key(k)).collect();
+                let pc1 = pcase_coq(&node, &main_views);
+                let d = diff(&o0, &o);
                 if !d.is_empty() {
                     viol.push(json!({"what": format!("after a crash during the freeze pass {} main-chain blocks / transactions / cells read differently or are lost", d.len()),
                         "detail": {"case": ctx, "first_differences": d.iter().take(6).map(|(k, a, b)| json!({"query": k, "before": a, "after": b})).collect::<Vec<_>>()}}));
@@ -261,20 +309,25 @@ pub fn run(seed: u64, thorough: bool, out_dir: &Path, scratch: &Path) -> Out {
                 }
                 let fnum2 = node.shared.store().freezer().map(|f| f.number()).unwrap_or(0);
                 let o = observe(&node, false);
-                let d: Vec<_> = diff(&o0, &o).into_iter().filter(|(k, _, _)| k.ends_with("/block") || k.ends_with("/header") || k.ends_with("/tx") || k.ends_with("/info") || is_cell_key(k)).collect();
+                let pc2 = pcase_coq(&node, &main_views);
+                let d = diff(&o0, &o);
                 if !d.is_empty() {
                     viol.push(json!({"what": format!("after a crash during the freeze pass and a further pass {} main-chain blocks / transactions / cells read differently or are lost", d.len()),
                         "detail": {"case": ctx, "first_differences": d.iter().take(6).map(|(k, a, b)| json!({"query": k, "before": a, "after": b})).collect::<Vec<_>>()}}));
                 }
                 node.stop();
-                (viol, fnum, fnum2)
+                (viol, fnum, fnum2, pc1, pc2)
             }));
             match r {
                 Err(p) => {
                     let msg = p.downcast_ref::<String>().cloned().or_else(|| p.downcast_ref::<&str>().map(|s| s.to_string())).unwrap_or_default();
                     out.viol.push(json!({"what": format!("the node does not come up again after a crash during the freeze pass: {msg}"), "detail": ctx}));
                 }
-                Ok((viol, fnum, fnum2)) => { out.viol.extend(viol); fz_obs.push((fnum, 0, fnum2)); }
+                Ok((viol, fnum, fnum2, pc1, pc2)) => {
+                    out.viol.extend(viol); fz_obs.push((fnum, 0, fnum2));
+                    cf.push(1, pc1); descs.entry("parts".into()).or_default().push(json!({"case": ctx, "at": "re-opened after the crash"}));
+                    cf.push(1, pc2); descs.entry("parts".into()).or_default().push(json!({"case": ctx, "at": "after the crash and a further pass"}));
+                }
             }
         }
         let _ = std::fs::remove_dir_all(&case_dir);
